@@ -1,6 +1,7 @@
 package props
 
 import (
+	"regexp"
 	"encoding/binary"
 	"fmt"
 	"os"
@@ -28,6 +29,10 @@ const (
 var c15PageSizes = []int{512, 1024, 2048, 4096, 8192, 16384, 32768, 65536}
 
 // classify the header after setting byte off to v (base is a valid header).
+// set per run (workers execute runs one after the other)
+var c15ImageHasDesc bool
+var reDesc = regexp.MustCompile(`(?i)\bDESC\b`)
+
 func classifyHeader(base []byte, off int, v byte) (class int, why string) {
 	h := append([]byte(nil), base[:100]...)
 	if h[off] == v {
@@ -63,6 +68,12 @@ func classifyHeader(base []byte, off int, v byte) (class int, why string) {
 		f := binary.BigEndian.Uint32(h[44:48])
 		switch {
 		case f >= 2 && f <= 4:
+			if f < 4 && c15ImageHasDesc {
+				// in formats 2 and 3 SQLite ignores DESC in index definitions: a format-4
+				// image with a descending index, relabelled, is not a file SQLite reads the
+				// same way either
+				return hdrDontCare, "schema format 2/3 on an image with DESC indexes"
+			}
 			return hdrAccept, "schema format 2..4"
 		case f <= 1:
 			return hdrDontCare, "schema format 0/1"
@@ -139,6 +150,12 @@ func runC15Enum(c *sim.Ctx, u int, chunk int) {
 	for _, t := range snap.Tables {
 		if t.HasRows {
 			tables = append(tables, t)
+		}
+	}
+	c15ImageHasDesc = false
+	for _, m := range snap.Master {
+		if m.SQL != nil && reDesc.MatchString(*m.SQL) {
+			c15ImageHasDesc = true
 		}
 	}
 	// base behaviour
